@@ -35,6 +35,7 @@ pub mod c05;
 pub mod c06;
 pub mod c07;
 pub mod c15;
+pub mod c17;
 pub mod c20;
 
 pub fn get(id: &str) -> Option<PropDef> {
@@ -45,6 +46,7 @@ pub fn get(id: &str) -> Option<PropDef> {
         "C06" => Some(c06::def()),
         "C07" => Some(c07::def()),
         "C15" => Some(c15::def()),
+        "C17" => Some(c17::def()),
         "C20" => Some(c20::def()),
         _ => None,
     }
